@@ -1,14 +1,16 @@
 #!/bin/sh
-# tools/try_equivalent.sh [property ids...]  - the equivalent changes of equivalent/patch.diff on a scratch worktree: every check must stay silent
-wt=$(mktemp -d /tmp/equivwt.XXXXXX); out=$(mktemp -d /tmp/equivout.XXXXXX)
-git -C /repo worktree add --detach "$wt/r" HEAD >/dev/null 2>&1 || { echo "cannot create worktree"; exit 2; }
-(cd "$wt/r" && git apply /verif/equivalent/patch.diff) || { echo "patch does not apply"; git -C /repo worktree remove --force "$wt/r"; exit 2; }
+# tools/try_equivalent.sh [property ids...]  - the equivalent changes of equivalent/patch*.diff, each on a scratch worktree: every check must stay silent
 props="$*"; [ -n "$props" ] || props="C01 C02 C03 C04 C05 C06 C07 C08 C09 C10 C11 C12 C13 C14 C15 C16 C17 C18 C19 C20"
 rc=0
-for p in $props; do
-  (cd /verif && VERIF_REPO=$wt/r VERIF_OUT=$out ./check "$p" --tier quick >"$out/$p.log" 2>&1); e=$?
-  echo "$p exit=$e $(grep -v '^    \|^KNOWN' "$out/$p.log" | tail -1 | cut -c1-200)"
-  [ $e -eq 0 ] || rc=1
+for patch in /verif/equivalent/patch*.diff; do
+  wt=$(mktemp -d /tmp/equivwt.XXXXXX); out=$(mktemp -d /tmp/equivout.XXXXXX)
+  git -C /repo worktree add --detach "$wt/r" HEAD >/dev/null 2>&1 || { echo "cannot create worktree"; exit 2; }
+  (cd "$wt/r" && git apply "$patch") || { echo "$patch does not apply"; git -C /repo worktree remove --force "$wt/r"; exit 2; }
+  for p in $props; do
+    (cd /verif && VERIF_REPO=$wt/r VERIF_OUT=$out ./check "$p" --tier quick >"$out/$p.log" 2>&1); e=$?
+    echo "$(basename $patch) $p exit=$e $(grep -v '^    \|^KNOWN' "$out/$p.log" | tail -1 | cut -c1-200)"
+    [ $e -eq 0 ] || rc=1
+  done
+  cd /; git -C /repo worktree remove --force "$wt/r"; git -C /repo worktree prune; rm -rf "$wt" "$out"
 done
-cd /; git -C /repo worktree remove --force "$wt/r"; git -C /repo worktree prune; rm -rf "$wt" "$out"
 exit $rc
